@@ -38,7 +38,7 @@ DriverRoutine == IF Routine \in {"lru", "lru_inplace", "lru_fixed"} THEN "lru"
                  ELSE IF Routine \in {"journal_fixed", "journal_save"} THEN "journal"
                  ELSE IF Routine = "disk_nosync" THEN "disk" ELSE Routine
 Alphabet ==
-  CASE DriverRoutine = "lru"     -> {"mut", "bump", "save", "shutdown", "reopen"}
+  CASE DriverRoutine = "lru"     -> {"mut", "bump", "save", "shutdown", "reopen", "cycle"}
     [] DriverRoutine = "index"   -> {"add", "rm", "flush", "save", "reopen", "fill", "addf"}
     [] DriverRoutine = "res"     -> {"mark", "unmark", "save", "reopen"}
     [] DriverRoutine = "disk"    -> {"puta", "putb", "rma", "reopen"}
